@@ -40,7 +40,9 @@ BASE = ["b0", "b1", "b2"]
 
 @st.composite
 def cond(draw):
-    k = draw(st.sampled_from(["true", "false", "false", "expr", "expr"]))
+    k = draw(st.sampled_from(["true", "false", "false", "expr", "expr", "expr", "nul"]))
+    if k == "nul":
+        return {"nul": True}           # the condition is a boolean node holding none: not true, so it selects nothing
     if k != "expr":
         return {"lit": k == "true"}
     # a small pool on purpose: the same condition text recurs while the referenced node changes in between
@@ -133,6 +135,8 @@ def strategies(tier):
 # --------------------------------------------------------------------------- rendering
 
 def cond_text(c):
+    if "nul" in c:
+        return '("{?nul}")'
     if "lit" in c:
         return "true" if c["lit"] else "false"
     return f'("{{?{c["ref"]}}} {c["op"]} {c["rhs"]}")'
@@ -210,7 +214,7 @@ def render_items(its, level, widths, out, prefix="", in_clause=False):
 
 
 def render(case):
-    out = [f"{n} int = {v}" for n, v in zip(BASE, case["base"])]
+    out = [f"{n} int = {v}" for n, v in zip(BASE, case["base"])] + ["nul bool = none"]
     if _uses_aux(case["items"]):
         out = ["$source aux = @AUXPATH@"] + out
     body = []
@@ -263,6 +267,8 @@ def render(case):
 # --------------------------------------------------------------------------- reference interpreter
 
 def truth(c, model):
+    if "nul" in c:
+        return False
     if "lit" in c:
         return c["lit"]
     a, b = model[c["ref"]], c["rhs"]
@@ -279,6 +285,8 @@ def interpret(case):
     for n, v in zip(BASE, case["base"]):
         model[n] = v
         const[n] = False
+    model["nul"] = None
+    const["nul"] = False
 
     def walk(its, prefix, active):
         for idx, it in enumerate(its):
